@@ -89,6 +89,9 @@ def kinds():
                              "exp": (lambda addr: b"\x01\x07\x08\x09" + pad_to(addr + 4, 2))}
     K["incdeep"] = lambda i: {"text": ".include \"incdeep.mac\"", "defs": [],
                               "exp": (lambda addr: b"\x01\x07\x08\x09" + pad_to(addr + 4, 2) + b"\x02")}
+    # file names with a <n> chunk that is only known later: the statement cannot be carried out when it is first met
+    K["incf"] = lambda i: {"text": ".include \"inc\" <fc%d> \".mac\"" % i, "exp": (lambda addr: b"\x07\x08\x09"), "defs": ["fc%d = 62" % i]}
+    K["insf"] = lambda i: {"text": "insert_file \"f\" <fi%d> \".bin\"" % i, "exp": (lambda addr: b"\x01\x02\x03\x04\x05"), "defs": ["fi%d = 65" % i]}
     # word data: legal only at an even address (at an odd one the program has an error and is outside C02's premise)
     K["word"] = lambda i: {"text": ".word 5", "exp": (lambda addr: w(5)), "defs": [], "needs_even": True}
     K["dword"] = lambda i: {"text": ".dword 1", "exp": (lambda addr: w(0) + w(1)), "defs": [], "needs_even": True}
@@ -104,7 +107,7 @@ def kinds():
 KINDS = kinds()
 ORDER = ["nop", "mov4", "mov6", "byte1", "byte3", "word", "dword", "wlist", "worddot", "word0", "dword0", "byte0", "ascii2", "ascii3", "asciz2", "rad50",
          "blkb3", "blkw2", "blkbf", "blkwf", "even", "odd", "align4", "alignf", "skip5", "skipf",
-         "rep2nop", "repeven", "repf", "rep3even", "rep4dot", "ins0", "ins5", "inc2", "incinc", "incdeep", "label", "assign"]
+         "rep2nop", "repeven", "repf", "rep3even", "rep4dot", "ins0", "ins5", "inc2", "incinc", "incdeep", "incf", "insf", "label", "assign"]
 assert set(ORDER) == set(KINDS)
 
 
